@@ -111,10 +111,10 @@ def plans(tier):
     big = dict(p_sizes=[0, 12], p_offs=[0, 4, 8], p_wl=[0, 4], p_rs=[0, 4, 8, 12, 16], p_cs=[0, 4, 8, 12, 16])
     if tier == "quick":
         checks = [
-            dict(name="frames", mode="check", n=0, depth=3, allocs=2, nptrs=4, ids=4, sizes=[0, 2], offs=[1, 2], wl=[0, 2],
+            dict(name="frames", mode="check", n=0, depth=3, allocs=2, nptrs=3, ids=4, sizes=[0, 2], offs=[1], wl=[0, 2],
                  seeds=[1], rs=[0, 1, 2, 4], cs=[0, 2]),
-            dict(name="bytes", mode="check", n=0, depth=2, allocs=2, nptrs=3, ids=3, sizes=[4], offs=[2], wl=[1, 2, 4],
-                 seeds=[1, 2], rs=[0, 1, 2, 4], cs=[1, 2, 4]),
+            dict(name="bytes", mode="check", n=0, depth=2, allocs=1, nptrs=3, ids=3, sizes=[4], offs=[2], wl=[2, 4],
+                 seeds=[1, 2], rs=[0, 1, 2, 4], cs=[2, 4]),
         ]
         behaviours = [
             # frames and pointers: deep enough for pop + push + allocate under a dangling pointer
@@ -132,10 +132,10 @@ def plans(tier):
         walks = [dict(name="walk", num=40, depth=14)]
     else:
         checks = [
-            dict(name="frames", mode="check", n=0, depth=3, allocs=2, nptrs=4, ids=5, sizes=[0, 2, 4], offs=[1, 2], wl=[0, 2],
+            dict(name="frames", mode="check", n=0, depth=3, allocs=2, nptrs=4, ids=4, sizes=[0, 2, 4], offs=[1, 2], wl=[0, 2],
                  seeds=[1], rs=[0, 1, 2, 4], cs=[0, 2, 4]),
-            dict(name="bytes", mode="check", n=0, depth=2, allocs=2, nptrs=4, ids=3, sizes=[2, 4], offs=[1, 2], wl=[1, 2, 4],
-                 seeds=[1, 2], rs=[0, 1, 2, 4], cs=[1, 2, 4]),
+            dict(name="bytes", mode="check", n=0, depth=2, allocs=2, nptrs=4, ids=3, sizes=[4], offs=[2], wl=[2, 4],
+                 seeds=[1], rs=[0, 1, 2, 4], cs=[2, 4]),
         ]
         behaviours = [
             dict(name="frames", mode="cover", n=7, depth=3, allocs=2, nptrs=4, ids=4, sizes=[0, 4], offs=[2, 4], wl=[2, 4],
